@@ -156,6 +156,14 @@ static void do_tagged(uint64_t v) {
         gret = (int)varintTaggedGet64(d, &val);
         rt_emit("tagged", "Put64FixedWidthQuick_", "Get64", v, w, cur_off,
                 "fwd", w, gret, val);
+        {
+            uint64_t v_hi = v & 0xAAAAAAAAAAAAAAAAULL, v_lo = v & 0x5555555555555555ULL; /* every byte gets bits from both operands */
+            int zero = (int)(fillctr & 0);
+            d = win_prep();
+            varintTaggedPut64FixedWidthQuick_(d + zero, v_hi | v_lo, (varintWidth)(w | zero));
+            val = varintTaggedGet64Quick_(d + zero);
+            rt_emit("tagged", "Put64FixedWidthQuick_(expr)", "Get64Quick_(expr)", v, w, cur_off, "fwd", w, -1, val);
+        }
     }
     if (v <= UINT32_MAX) {
         uint32_t v32 = 0;
@@ -216,6 +224,24 @@ static void do_ext(uint64_t v) {
         varintExternalGetQuickMedium_(d, w, val);
         rt_emit("ext", "PutFixedWidthQuickMedium_", "GetQuickMedium_", v, w,
                 cur_off, "fwd", w, -1, val);
+        /* the macros with expression arguments (value as hi | lo, width as w | 0, address as base + 0) */
+        {
+            uint64_t v_hi = v & 0xAAAAAAAAAAAAAAAAULL, v_lo = v & 0x5555555555555555ULL; /* every byte gets bits from both operands */
+            int zero = (int)(fillctr & 0);
+            d = win_prep();
+            varintExternalPutFixedWidthQuick_(d + zero, v_hi | v_lo, w | zero);
+            varintExternalGetQuick_(d + zero, w | zero, val);
+            rt_emit("ext", "PutFixedWidthQuick_(expr)", "GetQuick_(expr)", v, w, cur_off, "fwd", w, -1, val);
+            d = win_prep();
+            varintExternalPutFixedWidthQuickMedium_(d + zero, v_hi | v_lo, w | zero);
+            varintExternalGetQuickMedium_(d + zero, w | zero, val);
+            rt_emit("ext", "PutFixedWidthQuickMedium_(expr)", "GetQuickMedium_(expr)", v, w, cur_off, "fwd", w, -1,
+                    val);
+            d = win_prep();
+            varintExternalBigEndianPutFixedWidthQuick_(d + zero, v_hi | v_lo, w | zero);
+            varintExternalBigEndianGetQuick_(d + zero, w | zero, val);
+            rt_emit("extbe", "PutFixedWidthQuick_(expr)", "GetQuick_(expr)", v, w, cur_off, "fwd", w, -1, val);
+        }
     }
 
     /* 128-bit fixed-width writer / reader carrying a 64-bit value */
@@ -323,6 +349,21 @@ static void do_chained(uint64_t v) {
         len_emit(FAM, "GetLen_", v, d[0], elen, l3);                           \
         len_emit(FAM, "GetLenQuick_", v, d[0], elen,                           \
                  (int)PFX##GetLenQuick_(d));                                   \
+        /* the same macros with EXPRESSIONS as arguments (a caller writes      \
+         * hi | lo, base + off, ...): operators binding looser than the        \
+         * macro body's shifts and casts */                                    \
+        uint8_t *d0 = win_prep();                                              \
+        int zero = (int)(fillctr & 0);                                         \
+        elen = 0;                                                              \
+        val = 0;                                                               \
+        glen = 0;                                                              \
+        PFX##Put_(d0 + zero, elen, v_hi | v_lo);                               \
+        PFX##Get_(d0 + zero, glen, val);                                       \
+        rt_emit(FAM, "Put_(expr)", "Get_(expr)", v, 0, cur_off, "fwd", elen,   \
+                glen, val);                                                    \
+        l2 = 0;                                                                \
+        PFX##Length_(l2, v_hi | v_lo);                                         \
+        len_emit(FAM, "Length_(expr)", v, -1, elen, l2);                       \
     } while (0)
 
 #define SPLIT_REV(FAM, PFX)                                                    \
@@ -347,6 +388,7 @@ static void do_chained(uint64_t v) {
     } while (0)
 
 static void do_split(uint64_t v) {
+    uint64_t v_hi = v & 0xAAAAAAAAAAAAAAAAULL, v_lo = v & 0x5555555555555555ULL; /* every byte gets bits from both operands */
     SPLIT_FWD("split", varintSplit);
     SPLIT_REV("split", varintSplit);
     SPLIT_FWD("splitfull", varintSplitFull);
@@ -451,7 +493,12 @@ static size_t key_put(uint8_t *k, uint64_t v, int how) {
 }
 
 static void cmp_emit_how(const uint64_t *a, const uint64_t *b, size_t n, int how) {
-    uint8_t ka[64], kb[64];
+    /* keys are built in place inside records: every alignment of the key's
+     * first byte (0..7 modulo 8) comes up, the two keys at different ones */
+    static uint8_t ka_store[96] __attribute__((aligned(16))), kb_store[96] __attribute__((aligned(16)));
+    static unsigned align_ctr;
+    align_ctr++;
+    uint8_t *ka = ka_store + (align_ctr % 8), *kb = kb_store + ((align_ctr / 8 + align_ctr) % 8);
     size_t la = 0, lb = 0;
     for (size_t i = 0; i < n; i++) {
         la += key_put(ka + la, a[i], how);
@@ -569,7 +616,13 @@ static void slot_init(uint8_t *slotbuf, int off, int tagged, uint64_t v,
         slotbuf[i] = (uint8_t)(0xC3 + 29 * i + 7 * c);
     }
     if (tagged) {
-        *w = (int)varintTaggedPut64(slotbuf + off, v);
+        /* a slot may be wider than its value needs (a counter stored with the
+         * fixed-width writer): its first byte announces the width */
+        if (*w >= 4 && tagged_legal_fixed(v, *w)) {
+            varintTaggedPut64FixedWidth(slotbuf + off, v, (varintWidth)*w);
+        } else {
+            *w = (int)varintTaggedPut64(slotbuf + off, v);
+        }
     } else {
         if (*w < bytewidth(v)) {
             *w = bytewidth(v);
@@ -625,7 +678,7 @@ static void mode_add(const char *path, size_t shard, size_t nshards,
     for (size_t i = 0; i < nrandom; i++) {
         int tagged = (int)(rng_u64() & 1);
         uint64_t v = (rng_u64() & 3) ? vals[rng_u64() % nvals] : rng_anywidth();
-        int w = tagged ? 0 : (int)(1 + rng_u64() % 8);
+        int w = tagged ? ((rng_u64() & 1) ? 0 : (int)(4 + rng_u64() % 6)) : (int)(1 + rng_u64() % 8);
         int off = 4 + (int)(rng_u64() % 4);
         uint64_t amts[6];
         int grows[6];
